@@ -8,6 +8,7 @@ CONSTANTS
   InvLengthUnits <- MC_InvQuick
   DTypeSet = {"float64", "float32", "int64"}
   Kernels <- MC_AllKernels
+  WithShapes = FALSE
   Bug = "dtype_any"
 INVARIANT TypeOK
 INVARIANT DimensionOK
